@@ -2,7 +2,7 @@ import json
 from contextlib import suppress
 from typing import Union
 
-from pydantic import BaseModel, ConfigDict, Field, ValidationError, field_validator, model_validator
+from pydantic import BaseModel, ConfigDict, Field, StrictFloat, ValidationError, field_validator, model_validator
 from typing_extensions import Annotated
 
 from pycfmodel.model.base import FunctionDict
@@ -25,6 +25,7 @@ AuxType = Annotated[
         Properties,
         ResolvableBoolOrList,
         ResolvableIntOrList,
+        InstanceOrListOf[Resolvable[StrictFloat]],  # a number that is not an integer stays a number (not an epoch)
         ResolvableDateOrList,
         ResolvableDatetimeOrList,  # Date can be parsed as Datetime in pydantic v2 so should be ordered accordingly
         ResolvableIPOrList,
